@@ -60,17 +60,19 @@ SPEC = {
                         "correspondence (model vs library on sampled orders)"],
     },
     "C05": {
-        "LEAN": {"modules": ["GfaProofs.C05", "GfaProofs.C05Rename", "GfaProofs.Bridge.Connect"], "support": ["GfaModel.Graph", "GfaProofs.C02", "GfaProofs.C02Rename"],
+        "LEAN": {"modules": ["GfaProofs.C05", "GfaProofs.C05Rename", "GfaProofs.C14Frame", "GfaProofs.Bridge.Connect"], "support": ["GfaModel.Graph", "GfaProofs.C02", "GfaProofs.C02Rename"],
                  "theorems": ["Gfa.Bridge.Connect.dependentLines_table", "Gfa.Bridge.Connect.otherReferences_table", "Gfa.Bridge.Connect.gap_sets_link_paths",
                               "Gfa.C05.rename_frame", "Gfa.C05.rename_mentions", "Gfa.C05.rename_carrier", "Gfa.C05.renameIn_frame",
                               "Gfa.C05.cascade_sound", "Gfa.C05.cascade_complete", "Gfa.C05.rm_lines", "Gfa.C05.rmCore_lines", "Gfa.C05.rm_lines_origin",
-                              "Gfa.C05.rm_kept_unchanged",
+                              "Gfa.C05.rm_kept_unchanged", "Gfa.C14Frame.rm_frame", "Gfa.C14Frame.rmIdx_keeps", "Gfa.C14Frame.cascade_plain",
                               "Gfa.C05.rm_set_rest", "Gfa.C05.rm_name_gone", "Gfa.C02.rmIdx_closed", "Gfa.C02.dropItems_itemRefs",
                               "Gfa.C09.rename_nodup", "Gfa.G.renameIn_name"]},
         "ASSUMPTIONS": ["the refinement 'state = parse of the denoted text' is decided by the oracle (independent text model + reparse) and the "
                         "correspondence; proved in Lean: the removal cascade is exactly the least closed set of dependants, the rest is textually unchanged "
                         "(rm_lines_origin: every remaining line is a kept line with the same record type and identifier, the same text unless it is a set "
-                        "that lost a mention or a placeholder link that gave up an overlap no stored path states any more); "
+                        "that lost a mention or a placeholder link that gave up an overlap no stored path states any more) and, the other way round, a real "
+                        "segment, link, containment, edge, gap or fragment that is not the removed line and does not mention it is still there with the "
+                        "same text (rm_frame: such a line goes only with a removed segment it mentions, cascade_plain); "
                         "a rename substitutes the identifier in every mention (rename_mentions), the renamed line carries the new identifier "
                         "(rename_carrier) and every line that does not mention the old identifier is literally unchanged (rename_frame)",
                         "set/delete of a tag is not modelled in Lean (oracle only)"],
@@ -146,10 +148,12 @@ SPEC = {
                         "arrive is decided by the oracle"],
     },
     "C14": {
-        "LEAN": {"modules": ["GfaProofs.Bridge.Seq", "GfaProofs.C14", "GfaProofs.C14Paths", "GfaProofs.C14Cover", "GfaProofs.C14Merge", "GfaProofs.C14MergeEnds", "GfaProofs.C16"],
+        "LEAN": {"modules": ["GfaProofs.Bridge.Seq", "GfaProofs.C14", "GfaProofs.C14Paths", "GfaProofs.C14Cover", "GfaProofs.C14Merge", "GfaProofs.C14MergeEnds", "GfaProofs.C14Frame", "GfaProofs.C16"],
                  "support": ["GfaModel.Seq", "GfaModel.LinearPaths", "GfaModel.MergeGraph"],
                  "theorems": ["Gfa.C14Merge.mergePath_closed", "Gfa.C14Merge.mergePath_nodup", "Gfa.C14Merge.mergePath_members_gone",
                               "Gfa.C14Merge.mergeAll_closed", "Gfa.C14Merge.mergeAll_nodup", "Gfa.C14Merge.mergePath_steps",
+                              "Gfa.C14Frame.mergePath_frame", "Gfa.C14Frame.mergeAll_frame", "Gfa.C14Frame.relink_frame", "Gfa.C14Frame.rmAll_frame",
+                              "Gfa.C14Frame.add_keeps", "Gfa.C14Frame.mergedSegment_rt", "Gfa.C14Frame.dovEnds_mentions",
                               "Gfa.C14Merge.lenAlong_sum", "Gfa.C14Merge.merged_length_matches",
                               "Gfa.C14Merge.merged_sequence_is_spell", "Gfa.C14Merge.moveTo_L_ends", "Gfa.C14Merge.moved_first",
                               "Gfa.C14Merge.moved_last", "Gfa.C14Merge.moveTo_L_rest",
@@ -173,8 +177,11 @@ SPEC = {
                         "the sum of member lengths minus overlaps and equals the spelled length (lenAlong_sum, merged_length_matches), the sequence of the "
                         "merged segment is the spelled sequence of the chain (merged_sequence_is_spell), a GFA1 link moved from an outer end joins the "
                         "left (first member) / right (last member) end of the merged segment with whatever it joined before, overlap and tags kept "
-                        "(moved_first, moved_last, moveTo_L_rest; the same for E lines rests on the correspondence); which lines "
-                        "are left untouched (frame) and the options redundant_junctions / enable_tracking / cut_counts / merged_name are decided by the "
+                        "(moved_first, moved_last, moveTo_L_rest; the same for E lines rests on the correspondence); the frame: a real segment, link, "
+                        "containment, edge, gap or fragment that is not a member and mentions no member is a line with the same text after the merge "
+                        "(mergePath_frame, mergeAll_frame: additions displace no real line - add_keeps -, a removal takes such a line only with a removed "
+                        "segment it mentions - rm_frame -, the dovetails moved all mention the outer member - dovEnds_mentions); the frame for paths and "
+                        "groups (which depend on other lines transitively) and the options redundant_junctions / enable_tracking / cut_counts / merged_name are decided by the "
                         "text-level oracle on the real library only"],
     },
     "C15": {
